@@ -9,7 +9,7 @@ EXTENDS Searcher, Json
 Pts == 1..5
 EnQ == <<1, 0, 0, 0, 2>>
 KeyQ == <<1, 2, 2, 4, 5>>
-ASSUME \A p \in Pts : EnQ[KeyQ[p]] = EnQ[p] /\ KeyQ[KeyQ[p]] = KeyQ[p]
+ASSUME \A p \in Pts : EnQ[KeyQ[p]] = EnQ[p] /\ KeyQ[KeyQ[p]] = KeyQ[p] /\ EnQ[p] < 5
 
 A == <<1>>
 B == <<1, 2>>
